@@ -67,7 +67,7 @@ PlainInt(rec, tab, ii) ==
            IF ~GoldDom(cap, nn, xv) THEN Skip
            ELSE IF Has(rec, "w") /\ ~NewtonInitJudged(cap, xv, rec.w[ii]) THEN Res("slow_init", 0, 0)
            ELSE LET ee == DivExp(cap, nn, xv)  dv == AbsV(yy - ee) IN
-                IF cap >= 10 /\ kk = 5 /\ ~GoldAuthors(ee, yy) THEN Res("value", dv, ee \div 100)
+                IF cap >= 10 /\ kk = 5 /\ ee >= 256 /\ ~GoldAuthors(ee, yy) THEN Res("value", dv, ee \div 100)
                 ELSE Verdict(dv, GoldTol(cap, kk, ee))
       [] op = "fixmul" ->
            \* x * n / 2^p rounded to the grid: less than one unit away
@@ -110,20 +110,20 @@ PlainW(rec, tab, ii) ==
     LET op == rec.op  cap == rec.p  kk == rec.k  xv == XAt(rec, ii)  yy == rec.y[ii] IN
     CASE op = "newton" ->
            IF ~NewtonDom(cap, xv) \/ NewtonRel(kk)[1] # 0 THEN Skip
-           ELSE IF Has(rec, "w") /\ ~(WLeq(WPow2(cap - 1), WMul(WInt(xv), WInt(rec.w[ii])))
-                                      /\ WLeq(WMul(WInt(xv), WInt(rec.w[ii])), WMul(WNat(3), WPow2(cap - 1)))) THEN Res("slow_init", 0, 0)
-           ELSE Res(IF RecipWithinW(cap, WInt(xv), yy, NewtonAbs) THEN "ok" ELSE "value", 0, NewtonAbs)
+           ELSE IF Has(rec, "w") /\ ~(WLeq(WPow2(cap - 1), WMulNat(WNat(xv), rec.w[ii]))
+                                      /\ WLeq(WMulNat(WNat(xv), rec.w[ii]), WMulSmall(WPow2(cap - 1), 3))) THEN Res("slow_init", 0, 0)
+           ELSE Res(IF RecipWithinW(cap, xv, yy, NewtonAbs) THEN "ok" ELSE "value", 0, NewtonAbs)
       [] op = "isqrt" ->
            IF ~(1 <= xv /\ xv < 2097152) \/ ISqrtRel(kk)[1] # 0 \/ Has(rec, "w") THEN Skip
-           ELSE Res(IF ISqrtWithinW(cap, WInt(xv), yy, ISqrtAbs) THEN "ok" ELSE "value", 0, ISqrtAbs)
+           ELSE Res(IF ISqrtWithinW(cap, xv, WSmallAbs(yy), ISqrtAbs) /\ ~WNeg(yy) THEN "ok" ELSE "value", 0, ISqrtAbs)
       [] op = "gold" ->
            LET nn == NAt(rec, ii)  rl == NewtonRel(kk - 1) IN
            IF ~(1 <= xv /\ 1 <= nn /\ xv < 2 ^ (cap - 1) /\ nn < 2 ^ (cap - 1)) \/ Has(rec, "w") \/ kk < 4 THEN Skip
            ELSE LET tw == IF rl[1] = 0 THEN GoldTolW(cap, kk, yy)
                           ELSE WAdd(GoldTolW(cap, kk, yy), WAdd(WShr(yy, 2 ^ (kk - 1)), WNat(1))) IN
-                Res(IF ~WNeg(yy) /\ DivWithinW(cap, WInt(nn), WInt(xv), yy, tw) THEN "ok" ELSE "value", 0, 0)
+                Res(IF ~WNeg(yy) /\ DivWithinW(cap, nn, xv, yy, tw) THEN "ok" ELSE "value", 0, 0)
       [] op = "fixmul" ->
-           LET lv == WMul(WInt(xv), WInt(NAt(rec, ii)))  sc == WMul(yy, WPow2(cap)) IN
+           LET lv == WMulInt(WInt(xv), NAt(rec, ii))  sc == WShl(yy, cap) IN
            Res(IF WLess(WSub(lv, sc), WPow2(cap)) /\ WLess(WSub(sc, lv), WPow2(cap)) THEN "ok" ELSE "value", 0, 0)
       [] op \in {"sigmoid", "gelu"} ->
            IF ~PwlDom(op, cap, xv) THEN Skip
@@ -162,7 +162,7 @@ CompW(rec, tab, ii, pl) ==
     LET op == rec.op  cap == rec.p  kk == rec.k  yc == rec.yc[ii]  yy == rec.y[ii] IN
     IF pl.cls \in {"skip", "slow_init"} THEN Skip
     ELSE CASE op \in {"newton", "isqrt"} -> Res(IF WithinW(yc, yy, WNat(NewtonCAllow)) THEN "ok" ELSE "compiled_value", 0, NewtonCAllow)
-           [] op = "gold" -> Res(IF WithinW(yc, yy, WAdd(WNat(kk), WMul(WAdd(WShr(yy, cap), WNat(2)), WNat(kk)))) THEN "ok" ELSE "compiled_value", 0, 0)
+           [] op = "gold" -> Res(IF WithinW(yc, yy, WAdd(WNat(kk), WMulNat(WAdd(WShr(yy, cap), WNat(2)), kk))) THEN "ok" ELSE "compiled_value", 0, 0)
            [] op = "fixmul" -> Res(IF WithinW(yc, yy, WNat(FixMulCAllow)) THEN "ok" ELSE "compiled_value", 0, FixMulCAllow)
            [] op \in PwlOps -> Res(PwlCompClass(rec, ii, WithinW(yc, yy, WNat(PwlCAllow))), WSmallAbs(WSub(yc, yy)), PwlCAllow)
            [] OTHER -> Skip
